@@ -80,6 +80,13 @@ def calcNecessarySize (isz index : Nat) : Except Err Nat :=
   else if (index + 1) * isz > SIZE_MAX then .error .overflow
   else .ok ((index + 1) * isz)
 
+/-- the growth rule of `aws_array_list_ensure_capacity`:
+`next_allocation_size = current_size << 1` (wrapping), `new_size = max(next_allocation_size, necessary_size)`
+(tied to the source text by `c09_gen_growth`) -/
+def growthNewSize (currentSize necessarySize : Nat) : Nat :=
+  let next := (currentSize * 2) % 2^64          -- current_size << 1
+  if next > necessarySize then next else necessarySize
+
 /-- `aws_array_list_ensure_capacity` -/
 def ensureCapacity (l : AL) (index : Nat) : Except Err AL :=
   match calcNecessarySize l.itemSize index with
@@ -88,8 +95,7 @@ def ensureCapacity (l : AL) (index : Nat) : Except Err AL :=
     if l.data.length < nec then
       if !l.dyn then .error .invalidIndex
       else
-        let next := (l.data.length * 2) % 2^64          -- current_size << 1
-        let newSize := if next > nec then next else nec
+        let newSize := growthNewSize l.data.length nec
         if newSize < l.data.length then .error .exceedsMax
         else .ok { l with data := l.data ++ List.replicate (newSize - l.data.length) none }
     else .ok l
@@ -243,6 +249,13 @@ def shrinkToFit (l : AL) : AL × Rc :=
       else ({ l with data := [] }, .ok)
     else (l, .ok)
   else (l, .err .staticCantShrink)
+
+/-- allocator balance of `aws_array_list_shrink_to_fit` as written: when `ideal_size = 0 < current_size` the
+branch that acquires the new block and releases the old one is skipped, `data` is set to NULL and the old
+block is never released (one block leaked).  `true` = this call leaks the list's block. -/
+def shrinkLeaks (l : AL) : Bool :=
+  l.dyn && decide (l.length * l.itemSize ≤ SIZE_MAX) && decide (l.length * l.itemSize < l.data.length) &&
+    decide (l.length * l.itemSize = 0)
 
 /-- `aws_array_list_copy from to`: returns the new `to` -/
 def copy (frm to : AL) : AL × Rc :=
